@@ -161,20 +161,85 @@ func cloneData(d *types.TxData) types.TxData {
 		switch sp := in.TypedInput.(type) {
 		case *types.SpendInput:
 			c.Inputs = append(c.Inputs, types.NewSpendInput(cloneArgs(sp.Arguments), sp.SourceID, *sp.AssetId, sp.Amount, sp.SourcePosition,
-				append([]byte{}, sp.ControlProgram...), nil))
+				append([]byte{}, sp.ControlProgram...), cloneState(sp.StateData)))
 		case *types.VetoInput:
 			c.Inputs = append(c.Inputs, types.NewVetoInput(cloneArgs(sp.Arguments), sp.SourceID, *sp.AssetId, sp.Amount, sp.SourcePosition,
-				append([]byte{}, sp.ControlProgram...), append([]byte{}, sp.Vote...), nil))
+				append([]byte{}, sp.ControlProgram...), append([]byte{}, sp.Vote...), cloneState(sp.StateData)))
 		}
 	}
 	for _, o := range d.Outputs {
 		if v, ok := o.TypedOutput.(*types.VoteOutput); ok {
-			c.Outputs = append(c.Outputs, types.NewVoteOutput(*o.AssetId, o.Amount, append([]byte{}, o.ControlProgram...), append([]byte{}, v.Vote...), nil))
+			c.Outputs = append(c.Outputs, types.NewVoteOutput(*o.AssetId, o.Amount, append([]byte{}, o.ControlProgram...), append([]byte{}, v.Vote...), cloneState(o.StateData)))
 			continue
 		}
-		c.Outputs = append(c.Outputs, types.NewOriginalTxOutput(*o.AssetId, o.Amount, append([]byte{}, o.ControlProgram...), nil))
+		c.Outputs = append(c.Outputs, types.NewOriginalTxOutput(*o.AssetId, o.Amount, append([]byte{}, o.ControlProgram...), cloneState(o.StateData)))
 	}
 	return c
+}
+
+// cloneState copies a state data list (nil stays nil).
+func cloneState(sd [][]byte) [][]byte {
+	if sd == nil {
+		return nil
+	}
+	return cloneArgs(sd)
+}
+
+// randState: the state data of an output, most often none, else one to four
+// items, some of them empty.
+func randState(rng *ev.Rand) [][]byte {
+	if rng.Chance(1, 2) {
+		return nil
+	}
+	sd := make([][]byte, rng.Range(1, 4))
+	for i := range sd {
+		sd[i] = rng.Bytes(rng.Range(0, 6))
+	}
+	return sd
+}
+
+// alteredState returns a state data list that differs from sd as a list of
+// byte strings: an item boundary moved (the concatenation stays the same), one
+// byte changed, an item added, or an item dropped.
+func alteredState(sd [][]byte, rng *ev.Rand) ([][]byte, string) {
+	c := cloneArgs(sd)
+	for tries := 0; tries < 8; tries++ {
+		switch rng.Intn(4) {
+		case 0: // boundary between two neighbours moves
+			if len(c) < 2 {
+				continue
+			}
+			i := rng.Intn(len(c) - 1)
+			joined := append(append([]byte{}, c[i]...), c[i+1]...)
+			if len(joined) == 0 {
+				continue
+			}
+			cut := rng.Intn(len(joined) + 1)
+			if cut == len(c[i]) {
+				cut = (cut + 1) % (len(joined) + 1)
+			}
+			c[i], c[i+1] = joined[:cut:cut], joined[cut:]
+			return c, "boundary"
+		case 1:
+			i := rng.Intn(len(c) + 1)
+			if i == len(c) || len(c[i]) == 0 {
+				continue
+			}
+			c[i] = flipped(c[i], rng.Intn(len(c[i])), rng)
+			return c, "byte"
+		case 2:
+			if len(c) == 0 {
+				continue
+			}
+			return c[:len(c)-1], "dropped"
+		case 3:
+			if rng.Bool() {
+				return append(c, []byte{}), "added-empty"
+			}
+			return append(c, rng.Bytes(rng.Range(1, 4))), "added"
+		}
+	}
+	return append(c, []byte{1}), "added"
 }
 
 // voteOutputs lists the positions of the vote outputs.
@@ -303,10 +368,10 @@ func newSpend(rng *ev.Rand) (*spend, error) {
 		}
 		if asset == *consensus.BTMAssetID && rng.Chance(1, 4) {
 			// the lock guards a vote output: it is spent by a veto input (same program, same witness rules)
-			d.Inputs = append(d.Inputs, types.NewVetoInput(nil, randHash(rng), asset, amount, uint64(rng.Intn(4)), l.prog, rng.Bytes(64), nil))
+			d.Inputs = append(d.Inputs, types.NewVetoInput(nil, randHash(rng), asset, amount, uint64(rng.Intn(4)), l.prog, rng.Bytes(64), randState(rng)))
 			sp.vetoes++
 		} else {
-			d.Inputs = append(d.Inputs, types.NewSpendInput(nil, randHash(rng), asset, amount, uint64(rng.Intn(4)), l.prog, nil))
+			d.Inputs = append(d.Inputs, types.NewSpendInput(nil, randHash(rng), asset, amount, uint64(rng.Intn(4)), l.prog, randState(rng)))
 		}
 	}
 	fee := uint64(rng.Range(60000000, 70000000)) // >= MaxGasAmount * VMGasRate: gas is never the reason of a rejection
@@ -316,11 +381,11 @@ func newSpend(rng *ev.Rand) (*spend, error) {
 		a--
 	}
 	d.Outputs = append(d.Outputs,
-		types.NewOriginalTxOutput(*consensus.BTMAssetID, a, randProgram(rng), nil),
-		types.NewOriginalTxOutput(*consensus.BTMAssetID, rest-a, randProgram(rng), nil))
+		types.NewOriginalTxOutput(*consensus.BTMAssetID, a, randProgram(rng), randState(rng)),
+		types.NewOriginalTxOutput(*consensus.BTMAssetID, rest-a, randProgram(rng), randState(rng)))
 	if a >= consensus.MinVoteOutputAmount && rng.Chance(1, 3) {
 		// the spend pays into a vote output: which validator the vote goes to is a committed field
-		d.Outputs[0] = types.NewVoteOutput(*consensus.BTMAssetID, a, randProgram(rng), rng.Bytes(64), nil)
+		d.Outputs[0] = types.NewVoteOutput(*consensus.BTMAssetID, a, randProgram(rng), rng.Bytes(64), randState(rng))
 		sp.votes++
 	}
 	if otherIn > 0 {
@@ -679,6 +744,22 @@ func (e *engine) otherSighash(t int) {
 		}},
 		{"this-input-amount", t, func(d *types.TxData) { spendOf(d, t).Amount++ }},
 	}
+	// the state data of the spent outputs and of the results: each way a list of byte strings can differ
+	for k := 0; k < 3; k++ {
+		vs = append(vs,
+			variant{"output-statedata", t, func(d *types.TxData) {
+				o := d.Outputs[rng.Intn(nout)]
+				var how string
+				o.StateData, how = alteredState(o.StateData, rng)
+				e.out.Count("statedata_"+how, 1)
+			}},
+			variant{"this-input-statedata", t, func(d *types.TxData) {
+				s := spendOf(d, t)
+				var how string
+				s.StateData, how = alteredState(s.StateData, rng)
+				e.out.Count("statedata_"+how, 1)
+			}})
+	}
 	if nin > 1 {
 		u := (t + 1 + rng.Intn(nin-1)) % nin
 		vs = append(vs,
@@ -687,6 +768,12 @@ func (e *engine) otherSighash(t int) {
 				s.SourceID = bc.NewHash([32]byte(flipped(s.SourceID.Bytes(), rng.Intn(32), rng)))
 			}},
 			variant{"other-input-amount", t, func(d *types.TxData) { spendOf(d, u).Amount++ }},
+			variant{"other-input-statedata", t, func(d *types.TxData) {
+				s := spendOf(d, u)
+				var how string
+				s.StateData, how = alteredState(s.StateData, rng)
+				e.out.Count("statedata_"+how, 1)
+			}},
 			variant{"other-input-dropped", t - btoi(u < t), func(d *types.TxData) {
 				d.Inputs = append(append([]*types.TxInput{}, d.Inputs[:u]...), d.Inputs[u+1:]...)
 			}},
